@@ -399,6 +399,34 @@ pub(crate) fn apply_insertion_success(insertion_ctx: &mut InsertionContext, succ
     insertion_ctx.solution.required.retain(|j| *j != job);
     insertion_ctx.solution.unassigned.remove(&job);
     insertion_ctx.problem.goal.accept_insertion(&mut insertion_ctx.solution, route_index, &job);
+
+    #[cfg(reinterpretcat_vrp_verif)]
+    verif_insertion::notify(insertion_ctx, route_index);
+}
+
+/// Verification hook (guarded by `--cfg reinterpretcat_vrp_verif`): lets a harness look at the context right after
+/// every single insertion. Adds no behaviour.
+#[cfg(reinterpretcat_vrp_verif)]
+pub mod verif_insertion {
+    use super::InsertionContext;
+    use std::sync::{Arc, RwLock};
+
+    /// An observer which gets the context and the index of the route the job was inserted into.
+    pub type Observer = Arc<dyn Fn(&InsertionContext, usize) + Send + Sync>;
+
+    static OBSERVER: RwLock<Option<Observer>> = RwLock::new(None);
+
+    /// Sets (or removes) the observer.
+    pub fn set_observer(observer: Option<Observer>) {
+        *OBSERVER.write().unwrap() = observer;
+    }
+
+    pub(crate) fn notify(insertion_ctx: &InsertionContext, route_index: usize) {
+        let observer = OBSERVER.read().unwrap().clone();
+        if let Some(observer) = observer {
+            observer(insertion_ctx, route_index);
+        }
+    }
 }
 
 fn apply_insertion_failure(
